@@ -15,6 +15,9 @@ func TestMain(m *testing.M) { kit.Main(m) }
 // whole / fraction / gpu-memory workloads, all actions, several cycles.
 func profile() sim.Profile {
 	pf := sim.DefaultProfile()
+	// administrators change GPU quotas, limits and weights of queues between cycles
+	pf.PMutations = 3
+	pf.MutationKinds = []string{"queue-gpu"}
 	pf.MaxGroups = 9
 	pf.PLimits = 8
 	pf.PNonPreemptible = 5
